@@ -799,3 +799,60 @@ Definition wf_prog_prov (p : prog) : bool :=
   forallb (fun nc => wf_cdef_p (snd nc)) (p_lib p) &&
   forallb (fun kv => binder_ok (fst kv)) (p_ctx p) &&
   wf_lp false (map fst (p_ctx p)) (p_page p).
+
+(* ---------- isolated fragment widened by PASS-THROUGH SLOTS (Core/MechPass.v) ---------- *)
+(* slot tags and component_vars.is_filled reads may also stand inside the body of a component tag (fill content, implicit
+   default content, also between tag and fill, where they render nothing): they refer to the instance whose template
+   contains the component tag *)
+Definition expr_okq (e : expr) : bool := expr_ok false e.
+Definition kw_okq (kw : list (str * expr)) : bool := kw_ok false kw.
+
+Fixpoint wf_tq (G : list str) (t : tpl) {struct t} : bool :=
+  let wl := fix wl (G : list str) (ts : list tpl) {struct ts} : bool :=
+    match ts with [] => true | t :: r => wf_tq G t && wl G r end in
+  match t with
+  | TText _ => true
+  | TOut e => expr_okq e
+  | TIf c a b => expr_okq c && wl G a && wl G b
+  | TFor _ _ _ => false
+  | TWith x e body => val_expr_ok e && binder_ok x && negb (smemb x G) && wl (x :: G) body
+  | TSlot _ _ _ data body => kw_okq data && wl G body
+  | TFill name dv defv body =>
+      expr_okq name && match defv with None => true | Some _ => false end &&
+      match dv with
+      | Some x => binder_ok x && negb (smemb x G) && wl (x :: G) body
+      | None => wl G body
+      end
+  | TComp _ kw _ body => kw_okq kw && wl G body
+  | TProvide _ _ _ => false
+  end.
+Fixpoint wf_lq (G : list str) (ts : list tpl) : bool :=
+  match ts with [] => true | t :: r => wf_tq G t && wf_lq G r end.
+
+(* names of ALL slot tags flagged `default` written in a template, component-tag bodies included *)
+Fixpoint sdall_t (t : tpl) : list str :=
+  let sl := fix sl (ts : list tpl) : list str :=
+    match ts with [] => [] | t :: r => sdall_t t ++ sl r end in
+  match t with
+  | TIf _ a b => sl a ++ sl b
+  | TFor _ _ body => sl body
+  | TWith _ _ body => sl body
+  | TSlot name isd _ _ body => (if isd then [name] else []) ++ sl body
+  | TFill _ _ _ body => sl body
+  | TComp _ _ _ body => sl body
+  | TProvide _ _ body => sl body
+  | _ => []
+  end.
+Fixpoint sdall_l (ts : list tpl) : list str :=
+  match ts with [] => [] | t :: r => sdall_t t ++ sdall_l r end.
+
+Definition wf_cdef_q (cd : cdef) : bool :=
+  forallb (fun xd => binder_ok (fst xd) && dexpr_ok (snd xd)) (c_data cd) &&
+  wf_lq (map fst (c_data cd)) (c_tpl cd) &&
+  all_same (sdall_l (c_tpl cd)).
+
+Definition wf_prog_pass (p : prog) : bool :=
+  match p_mode p with Isolated => true | Django => false end &&
+  forallb (fun nc => wf_cdef_q (snd nc)) (p_lib p) &&
+  forallb (fun kv => binder_ok (fst kv)) (p_ctx p) &&
+  wf_lq (map fst (p_ctx p)) (p_page p).
